@@ -16,7 +16,13 @@ pub struct Fault {
     pub kind: Kind,
     pub k: u64,           // index (0-based) of the call of that kind that fails
     pub persistent: bool, // false: only call k fails; true: k and all later calls fail
+    pub ekind: u8,        // which io::ErrorKind the failing call reports (see EKINDS)
 }
+
+/// The kinds of error a medium may report.  NotFound and AlreadyExists are kinds that code tends to MATCH on
+/// ("nothing to remove", "already there"): coming from the medium they are failures like any other.
+pub const EKINDS: [io::ErrorKind; 7] = [io::ErrorKind::Other, io::ErrorKind::NotFound, io::ErrorKind::PermissionDenied, io::ErrorKind::AlreadyExists,
+                                        io::ErrorKind::WriteZero, io::ErrorKind::UnexpectedEof, io::ErrorKind::InvalidData];
 
 #[derive(Default, Clone, Copy, Debug, PartialEq, Eq)]
 pub struct Counters {
@@ -72,7 +78,7 @@ impl Medium {
         if let Some(f) = inner.fault {
             if f.kind == kind && (idx == f.k || (f.persistent && idx > f.k)) {
                 inner.c.faults += 1;
-                return Err(io::Error::new(io::ErrorKind::Other, "injected fault"));
+                return Err(io::Error::new(EKINDS[f.ekind as usize % EKINDS.len()], "injected fault"));
             }
         }
         Ok(())
